@@ -110,10 +110,11 @@ func (u *User) iteratePaths(cleanPath, permissionType string) (bool, error) {
 		var regexStr string
 		var negate bool
 
-		splitted := strings.Split(permission, ":")
-		if len(splitted) > 1 {
-			typeStr = splitted[0]
-			permission = strings.Join(splitted[1:], ":")
+		// An optional "<type>:" prefix. Anything else before a colon is part of
+		// the regex itself (e.g. POSIX classes such as [[:alnum:]]).
+		if prefix := permissionType + ":"; strings.HasPrefix(permission, prefix) {
+			typeStr = permissionType
+			permission = strings.TrimPrefix(permission, prefix)
 		}
 
 		dlog.Server.Debug(u, cleanPath, typeStr, permission)
